@@ -78,6 +78,17 @@ def random_tree(rnd, f, size, shape="mixed", nsrich=False, parent=0, top_doc=Non
             key = (rnd.choice(NSS), rnd.choice(LNS))
             if rnd.random() < 0.1:
                 key = (XMLNS, "space")
+            elif rnd.random() < 0.08:
+                key = (XMLNS, "id")
+            if key == (XMLNS, "id"):
+                # normalised xml:id values, each at most once per forest; white space other than #x20 is part of the value
+                idvals = [v for v in ["i1", "i2", "x y", "\ti4", "i5\r", "a\tb", "\u00a0i6", "i7\u3000"] if v not in f.__dict__.setdefault("ids_used", set())]
+                if key not in used and idvals:
+                    v = rnd.choice(idvals)
+                    f.ids_used.add(v)
+                    f.add(node("attr", ns=key[0], ln=key[1], t=cps(v)), par)
+                    count += 1
+                continue
             if key not in used:
                 val = "preserve" if key[0] == XMLNS and rnd.random() < 0.6 else rnd.choice(["", "v", "w x", "V"])
                 f.add(node("attr", ns=key[0], ln=key[1], t=cps(val)), par)
